@@ -342,10 +342,12 @@ def fromlist(l):
 
 def rnd_coef(rnd, small=False):
     """Non-trivial coefficient, never 0 or +-1, 2-3 significant digits."""
+    # positive coefficients are multiples of 0.01, negative ones are shifted by 0.003: a sum of fewer than ten
+    # coefficients never cancels exactly, so sympy cannot simplify f(a*x + b*x) to a call on a literal
     while True:
         c = round(rnd.uniform(-2.5, 2.5), 2) if not small else round(rnd.uniform(-0.9, 0.9), 2)
         if abs(c) > 0.15 and abs(abs(c) - 1.0) > 0.05:
-            return c
+            return c if c > 0 else round(c - 0.003, 3)
 
 
 ALLOW_DIRECT_NESTING = [False]   # f(f(x)) is a separate risk feature (C05 probe family)
